@@ -69,7 +69,7 @@ EstimatorSq(name, A, xa, xb, e) ==       \* xa = x_i, xb = x_{i+1}, h = 2^-e
                 den |-> DNorm2Sq(DAdd(Sc(s, xa), Ax(xa)))]
 
 OdeDims == IF Level = 1 THEN {<<2, 2>>, <<2, 2, 2>>} ELSE {<<2>>, <<2, 2>>, <<2, 2, 2>>, <<3, 2>>, <<2, 3, 2>>}
-StepLists == {<<7>>, <<6, 8>>, <<7, 6, 8>>}
+StepLists == {<<7>>, <<6, 8>>, <<7, 6, 8>>, <<7, 6, 7>>, <<6, 8, 8, 6>>}
 OdeConfigs ==
     UNION {
       {[dims |-> dims, op |-> "fill", rg |-> 2, cplx |-> cplx, seed |-> seed, rx |-> rx, scheme |-> sch, m |-> 1, steps |-> st] :
